@@ -180,10 +180,24 @@ def classify_f6(w0, p):
     return c
 
 
+def replay_failed_receive(model, path):
+    """native replay in the shape of the counterexample: bridge recipient, returning asset, escrow one short of the packet amount"""
+    from vlib import replay
+    amt = mval(model, z3.BitVec('packet_amount', 128)) or 100
+    amt = max(1, min(amt, (1 << 127)))
+    code = open('/verif/replay_templates/c18_recv.rs').read().replace('VERIF_AMOUNT', str(amt)).replace('VERIF_ESCROW', str(amt - 1))
+    r = replay.run_crate_test('astria-sequencer', 'crates/astria-sequencer/src/ibc/ics20_transfer.rs', code, 'verif_replay_c18')
+    if not r['lines']:
+        return {'mode': 'native-crate-test', 'reproduced': None, 'error': r['output'][-1500:]}
+    o = r['lines'][-1]
+    return {'mode': 'native-crate-test', 'inputs': {'amount': amt, 'escrow': amt - 1, 'recipient': 'bridge account', 'asset': 'returning (source-zone) asset'}, 'observed': o,
+            'reproduced': o['deposits'] != 0 or o['balance'] != '0' or o['escrow'] != str(amt - 1)}
+
+
 def receive_claims(run, ex, W, w0, p, kind, label, packet):
     eff = effective_world(p)
     if kind == 'Err':
-        run.prove(f'failed receive => no balance, escrow, asset registration, deposit or deposit event survives {label}', p.pc, unchanged(w0, eff), classify=classify_f6(w0, p))
+        run.prove(f'failed receive => no balance, escrow, asset registration, deposit or deposit event survives {label}', p.pc, unchanged(w0, eff), replay=replay_failed_receive)
         return
     # Ok: find the amount / recipient / asset the path used
     amt = z3.BitVec('packet_amount', 128)
